@@ -17,12 +17,11 @@ RUNS = {"quick": 600, "thorough": 8000}
 SHRINK_BUDGET = {"quick": 400, "thorough": 1200}
 RUN_TIMEOUT_S = 300
 RULE = (
-    "same generator as C26 (seeded constraint systems from a hidden ground truth; uniform and explicit non-uniform grids; consistent, under- and "
-    "over-constrained variants; families well_posed / general kept apart). Schedule per system: all permutations of a list with <= 4 elements, "
-    "otherwise identity, full reversal and seeded permutations up to K=8 (quick) / 40 (thorough), for the object list and the constraint list, "
-    "paired round-robin. non-trivial = at least two distinct orders executed; distinct = family x grid kind x variant x constraint kinds used x "
-    "object count class x outcome class (all succeed / all fail / mixed)"
-)
+    "same generator as C26 (seeded constraint systems emitted from a hidden ground truth; uniform and explicit non-uniform grids; consistent, under- and "
+    "over-constrained variants; families well_posed / general kept apart, label computed structurally; 40% of the general systems embed the motif "
+    "'free A, B placed against A, C sized from B'). Schedule per system: all permutations of a list with <= 4 elements, otherwise identity, full reversal and seeded "
+    "permutations up to K=8 (quick) / 40 (thorough), for the object list and the constraint list, paired round-robin. non-trivial = at least two distinct orders "
+    "executed; distinct = family x grid kind x variant x constraint mechanisms used x object count class x outcome class (all succeed / all fail / mixed)")
 REAL = ["resolve_object_constraints", "_apply_constraints_iteratively", "_extend_to_inf_if_possible", "_update_grid_slices_from_shapes / _update_grid_shapes_from_slices",
         "SimulationObject constraint helpers", "RectilinearGrid snapping helpers"]
 STUB = ["no arrays are allocated (resolve_object_constraints only, no place_objects)"]
